@@ -644,6 +644,64 @@ def validate_trace(spec_dir, module, cfg, trace_path, timeout=900, xmx="4g", env
 
 
 # ---------------------------------------------------------------------------------------------
+# executions under the cooperative scheduler (harness/sched): one process per execution
+
+def run_sched_executions(binary, runs, work, tag, timeout=60, parallel=None):
+    """runs: list of argument lists (scenario parameters, --seed, --sched ...).  Every execution runs in its own
+    process and writes its own trace; the traces are concatenated (each starts with a reset event).
+    Returns (combined trace path, [result dict per run]) where result has verdict/failure/steps/diverged/choices,
+    'rc', 'stderr' (sanitizer output etc.) and 'lines' = (first, last) 1-based line numbers in the combined trace."""
+    os.makedirs(work, exist_ok=True)
+    env = dict(os.environ, ASAN_OPTIONS="detect_leaks=0:abort_on_error=0:exitcode=99:allocator_may_return_null=1",
+               UBSAN_OPTIONS="print_stacktrace=1:halt_on_error=1:exitcode=98")
+
+    def one(i):
+        outp = os.path.join(work, "%s_%d.ndjson" % (tag, i))
+        try:
+            p = subprocess.run([binary] + [str(a) for a in runs[i]] + ["--out", outp], stdout=subprocess.PIPE, stderr=subprocess.PIPE,
+                               timeout=timeout, env=env)
+            rc, so, se = p.returncode, p.stdout.decode("utf-8", "replace"), p.stderr.decode("utf-8", "replace")
+        except subprocess.TimeoutExpired as ex:
+            rc, so, se = 124, (ex.stdout or b"").decode("utf-8", "replace"), "[timeout]"
+        res = {"rc": rc, "stderr": se[-3000:], "verdict": "crash" if rc not in (0,) else "?", "failure": "", "steps": 0, "diverged": 0, "choices": ""}
+        for line in so.splitlines():
+            if line.startswith('{"verdict"'):
+                try:
+                    res.update(json.loads(line))
+                except ValueError:
+                    pass
+        if rc == 124:
+            res["verdict"] = "timeout"
+        elif rc != 0:
+            res["verdict"] = "crash"
+        return outp, res
+    results = []
+    combined = os.path.join(work, tag + "_all.ndjson")
+    with ThreadPoolExecutor(max_workers=parallel or max(2, NCPU - 2)) as ex:
+        outs = list(ex.map(one, range(len(runs))))
+    ln = 0
+    with open(combined, "w") as cf:
+        for outp, res in outs:
+            first = ln + 1
+            if os.path.exists(outp):
+                with open(outp) as f:
+                    data = f.read()
+                if data and not data.endswith("\n"):
+                    data = data[:data.rfind("\n") + 1]
+                if not data.startswith('{"op":"reset"}'):
+                    data = '{"op":"reset"}\n' + data
+                cf.write(data)
+                ln += data.count("\n")
+                os.remove(outp)
+            else:
+                cf.write('{"op":"reset"}\n')
+                ln += 1
+            res["lines"] = (first, ln)
+            results.append(res)
+    return combined, results
+
+
+# ---------------------------------------------------------------------------------------------
 # known findings
 
 def load_findings():
